@@ -22,7 +22,8 @@ func sortDoc(r *rng, n int, withBad bool) []interface{} {
 			o["k"] = float64(r.intn(3))
 		}
 		if !r.chance(1, 6) {
-			o["s"] = []string{"a", "b", "é"}[r.intn(3)]
+			// code-point order incl. proper prefixes ("a" < "ab" < "abc"), the empty string, astral vs BMP characters
+			o["s"] = []string{"a", "b", "é", "ab", "abc", "", "aé", "😀", "\uffee", "a😀", "B", "aa"}[r.intn(12)]
 		}
 		if r.chance(1, 2) {
 			o["m"] = float64(r.intn(2))
@@ -256,7 +257,7 @@ func runC13(c *ctx) {
 
 // literal keys that coincide with values the computed keys can take ("p", "x", "1", "hi"): literal/computed collisions in both orders
 var c14KeyExprs = []string{"g", "$string(k)", "s", "g & s", "\"lit\"", "k", "nothing", "$string(k % 2)", "id > 2 ? \"hi\" : \"lo\"", "\"p\"", "\"x\"", "\"1\"", "\"hi\"", "g", "s"}
-var c14ValExprs = []string{"id", "$count($)", "$sum(k)", "$.id", "[id]", "{\"n\": $count(id)}", "k", "nothing", "$", "$max(id)"}
+var c14ValExprs = []string{"id", "$count($)", "$sum(k)", "$.id", "[id]", "{\"n\": $count(id)}", "k", "nothing", "$", "$max(id)", "v", "v", "$count(v)", "v[0]", "$sum(v)"}
 
 func groupDoc(r *rng, n int) []interface{} {
 	arr := make([]interface{}, n)
@@ -267,6 +268,16 @@ func groupDoc(r *rng, n int) []interface{} {
 		}
 		if !r.chance(1, 5) {
 			o["s"] = []string{"x", "y"}[r.intn(2)]
+		}
+		if r.chance(1, 2) {
+			// an array-valued member, with spare capacity as a decoded or caller-built slice has: grouping several
+			// items' arrays under one key must not write into any of them
+			ln := 1 + r.intn(4)
+			v := make([]interface{}, ln, ln+1+r.intn(4))
+			for j := range v {
+				v[j] = float64(10*i + j)
+			}
+			o["v"] = v
 		}
 		arr[i] = o
 	}
@@ -365,10 +376,14 @@ var c15Fns = []string{
 	"function($v){$v}", "function($v, $i){$i}", "function($v, $i, $a){$count($a)}", "function(){1}", "function($v){nothing}",
 	"function($v){$v = 1}", "function($v, $i){$i > 0}", "function($v){$type($v) = \"number\"}", "$string", "$boolean", "$not", "$count",
 	"$exists", "$type", "$append(?, 7)", "function($v){[$v]}", "function($v){$v ~> $string}", "$string ~> $length", "function($a, $b){$a}",
+	// chains as the function argument: a chain takes one argument whatever its first link's arity is
+	"$round ~> $string", "function($v, $i){$i} ~> $boolean", "function($v, $i, $a){$i = 1} ~> $boolean", "function($v, $i){$v & $i} ~> $length",
+	"$string ~> $substring(1)", "function($v, $i){[$v, $i]} ~> $count", "$string ~> $pad(4) ~> $length", "$type ~> $uppercase",
 }
 var c15Reducers = []string{
 	"function($a, $b){$a + $b}", "function($a, $b){$b}", "function($a, $b){$a}", "function($a, $b){[$a, $b]}", "function($a, $b){$string($a) & $string($b)}",
 	"function($a){$a}", "function($a, $b, $c){$a}", "$append", "function($a, $b){$count($a) + 1}",
+	"function($a, $b){$a + $b} ~> $abs", "$append ~> $count", "function($a, $b){$b} ~> $string",
 }
 
 func runC15(c *ctx) {
